@@ -11,7 +11,10 @@ TRUSTED = ['Lean 4.33 kernel', 'axioms: propext, Classical.choice, Quot.sound',
            'hand-written model Model/AGS.lean (tied by this correspondence)',
            'harness/aghist.py (history generator, real-code executor, canonicalisation, mirror checker)']
 WEIGHTS = {'add_node': 4, 'link': 2, 'remove_node': 1, 'add_attacker': 4, 'remove_attacker': 3,
-           'compromise': 10, 'undo': 6, 'attach': 3, 'lookup': 1}
+           'compromise': 10, 'undo': 6, 'attach': 3, 'lookup': 1,
+           # the relation must also hold for (and after) copies and reloaded graphs: caches that a hand-written
+           # __deepcopy__ / loader does not carry over show only when the copy is operated on
+           'deepcopy': 1, 'switch': 1, 'save_load': 1}
 
 def step_oracle(im, ops, i, st):
     op = ops[i]
